@@ -61,3 +61,137 @@ def r_c11(ctx, rep):
                         rep.violation("R-PANIC-DATES", key, loc(c), "%s unwraps `%s` whose operands are not constants: an out-of-range value panics instead of yielding None" % (fn.name, rc))
     if n < 6:
         rep.anchor_missing("R-PANIC-DATES", "chrono calls in the date conversions (found %d)" % n)
+
+
+# ----------------------------------------------------------------------------------------------
+# structural clauses of the conversion itself (added after seeding round 4)
+
+def _const_f(F, name):
+    """numeric value of a crate const item given by path suffix, evaluating literal products"""
+    for c in F.consts:
+        if (norm(c.get("def")) or "").endswith(name) and c.get("body") is not None:
+            return _num(c["body"])
+    return None
+
+
+def _num(e):
+    e = unwrap(e)
+    if not isinstance(e, dict):
+        return None
+    v = lit_value(e)
+    if isinstance(v, (int, float)) and not isinstance(v, bool):
+        return float(v)
+    if e.get("k") == "Lit":
+        raw = e["v"].get("v") if isinstance(e.get("v"), dict) else None
+        try:
+            return float(str(raw).replace("f64", "").replace("_", ""))
+        except (TypeError, ValueError):
+            return None
+    if e.get("k") == "Binary" and e.get("op") in ("*", "+"):
+        a, b = _num(e["l"]), _num(e["r"])
+        if a is None or b is None:
+            return None
+        return a * b if e["op"] == "*" else a + b
+    return None
+
+
+def r_c11_conv(ctx, rep):
+    """C11, structural clauses (feature `dates`): the constants of the conversion follow the date-system table
+    (R-DATE-TABLE); the 1900 leap-day shim tests the serial *after* the 1904 offset was applied (R-DATE-ORDER); the
+    serial is never cast to an unsigned integer, which would clamp negative durations to zero (R-DATE-SIGN); as_date /
+    as_time take their value from as_datetime or from ISO text, never from a numeric constructor of their own
+    (R-DATE-COMP)."""
+    from .runner import load_table
+    from .kit import path_local, field_chain, walk_anc
+    T = load_table("tables/dates.json")
+    F = ctx.facts("dates")
+    dt = F.fn("datatype::ExcelDateTime::as_datetime")
+    du = F.fn("datatype::ExcelDateTime::as_duration")
+    if dt is None or du is None:
+        rep.anchor_missing("R-DATE-TABLE", "ExcelDateTime::as_datetime / as_duration (feature dates)")
+        return
+    # ---- R-DATE-TABLE
+    key = "datatype::ExcelDateTime|R-DATE-TABLE|"
+    ymd = None
+    for c in walk_k(dt.body, "Call", "MethodCall"):
+        if (callee(c) or "").endswith("NaiveDate::from_ymd_opt"):
+            ymd = [lit_value(a) for a in c.get("args", [])]
+    if ymd == T["epoch_ymd"]:
+        rep.holds("R-DATE-TABLE", key + "epoch", loc(dt.raw), "epoch %s" % ymd)
+    else:
+        rep.violation("R-DATE-TABLE", key + "epoch", loc(dt.raw), "the epoch of the 1900 date system is %s, found %s: every date would be shifted" % (T["epoch_ymd"], ymd))
+    diff = _const_f(F, "EXCEL_1900_1904_DIFF")
+    msd = _const_f(F, "MS_MULTIPLIER")
+    for nm, got, want, what in (("diff-1904", diff, float(T["diff_1904_days"]), "days between the 1900 and 1904 date systems"), ("ms-per-day", msd, float(T["ms_per_day"]), "milliseconds per day")):
+        if got == want:
+            rep.holds("R-DATE-TABLE", key + nm, loc(dt.raw), "%s = %s" % (what, want))
+        else:
+            rep.violation("R-DATE-TABLE", key + nm, loc(dt.raw), "%s must be %s, found %s" % (what, want, got))
+    # both conversions scale by MS_MULTIPLIER
+    for fn in (dt, du):
+        uses = [p for p in walk_k(fn.body, "Path") if (path_def(p) or "").endswith("MS_MULTIPLIER")]
+        k2 = "%s|R-DATE-TABLE|scale" % fn.name
+        if uses:
+            rep.holds("R-DATE-TABLE", k2, loc(uses[0]), "serial * MS_MULTIPLIER")
+        else:
+            rep.violation("R-DATE-TABLE", k2, loc(fn.raw), "%s does not scale the serial by MS_MULTIPLIER (days -> milliseconds)" % fn.name)
+    # ---- R-DATE-ORDER: `if f >= 60.0 { f } else { f + 1.0 }` where f is the result of the is_1904 conditional
+    key = "datatype::ExcelDateTime::as_datetime|R-DATE-ORDER"
+    lets = {}
+    for l in walk_k(dt.body, "Let"):
+        if l.get("init") is not None and l["pat"].get("k") == "Binding":
+            lets[l["pat"]["lid"]] = l
+    shim = None
+    for i in walk_k(dt.body, "If"):
+        c = unwrap(i["cond"])
+        if c.get("k") == "Binary" and c.get("op") in (">=", "<", ">", "<=") and any(_num(x) == float(T["leap_bug_threshold"]) for x in (c["l"], c["r"])):
+            shim = (i, c)
+    if shim is None:
+        rep.violation("R-DATE-ORDER", key, loc(dt.raw), "no comparison of the serial with 60 (the fictitious 1900-02-29): serials below 60 would be one day early")
+    else:
+        i, c = shim
+        var = path_local(c["l"]) or path_local(c["r"])
+        src_let = lets.get(var[1]) if var else None
+        init = unwrap(src_let["init"]) if src_let else None
+        after_shift = bool(init) and init.get("k") == "If" and any(fc == ("self", ["is_1904"]) for fc in [field_chain(unwrap(init["cond"]))])
+        op_ok = (c["op"] == ">=" and path_local(c["l"])) or (c["op"] == "<" and path_local(c["l"])) or (c["op"] == "<=" and path_local(c["r"])) or (c["op"] == ">" and path_local(c["r"]))
+        # which branch adds the day: the one taken when the serial is below 60
+        then_adds = any(b.get("k") == "Binary" and b.get("op") == "+" and _num(b["r"]) == float(T["leap_bug_shift_days"]) for b in walk(i["then"]))
+        else_adds = i.get("els") is not None and any(b.get("k") == "Binary" and b.get("op") == "+" and _num(b["r"]) == float(T["leap_bug_shift_days"]) for b in walk(i["els"]))
+        below_is_then = (c["op"] in ("<",) and bool(path_local(c["l"]))) or (c["op"] in (">",) and bool(path_local(c["r"])))
+        adds_ok = (then_adds and not else_adds) if below_is_then else (else_adds and not then_adds)
+        if after_shift and op_ok and adds_ok:
+            rep.holds("R-DATE-ORDER", key, loc(i), "the +1 day below serial 60 is decided on the value after the 1904 offset")
+        else:
+            rep.violation("R-DATE-ORDER", key, loc(i), "the 1900 leap-day shim is wrong: %s" % "; ".join(x for x, ok in (
+                ("it tests a value that is not the result of the `is_1904` offset (1904-system serials below 60 come out one day late and the conversion is not monotone at 60)", after_shift),
+                ("the comparison with 60 is not `serial >= 60` / `serial < 60`", op_ok),
+                ("the extra day is not added exactly on the below-60 branch", adds_ok)) if not ok))
+    # ---- R-DATE-SIGN
+    for fn in (dt, du):
+        key = "%s|R-DATE-SIGN" % fn.name
+        bad = [c for c in walk_k(fn.body, "Cast") if c.get("ty") in ("u8", "u16", "u32", "u64", "usize", "u128") and (unwrap(c["e"]).get("ty") or "") in ("f64", "f32")]
+        if bad:
+            rep.violation("R-DATE-SIGN", key, loc(bad[0]), "%s casts the (possibly negative) millisecond count to %s: every negative serial becomes 0, so a duration is no longer the serial times 24 h and the conversion is not monotone" % (fn.name, bad[0]["ty"]))
+        else:
+            rep.holds("R-DATE-SIGN", key, loc(fn.raw), "the millisecond count stays signed")
+    # ---- R-DATE-COMP
+    NUMERIC_CTORS = ("from_num_seconds_from_midnight_opt", "from_hms_opt", "from_hms_milli_opt", "from_hms_micro_opt", "from_hms_nano_opt", "from_ymd_opt", "from_yo_opt",
+                     "from_num_days_from_ce_opt", "from_num_seconds_from_midnight", "from_hms", "from_ymd")
+    n = 0
+    for fn in F.fns:
+        last = fn.name.rsplit("::", 1)[-1]
+        if last not in ("as_time", "as_date") or "ExcelDateTime" in fn.name:
+            continue
+        n += 1
+        key = "%s|R-DATE-COMP" % fn.name
+        ctors = [c for c in walk_k(fn.body, "Call", "MethodCall") if (callee(c) or "").rsplit("::", 1)[-1] in NUMERIC_CTORS and "chrono" in (callee(c) or "")]
+        dtc = [c for c in walk_k(fn.body, "MethodCall") if c.get("name") == "as_datetime"]
+        if ctors:
+            rep.violation("R-DATE-COMP", key, loc(ctors[0]), "%s builds its result with `%s` instead of taking the component of as_datetime(): rounding carries into the next day and out-of-range serials are handled differently from as_datetime" % (fn.name, callee(ctors[0])))
+        elif not dtc:
+            rep.violation("R-DATE-COMP", key, loc(fn.raw), "%s does not go through as_datetime()" % fn.name)
+        else:
+            rep.holds("R-DATE-COMP", key, loc(dtc[0]), "component of as_datetime() (ISO text is parsed as text)")
+    if n < 2:
+        rep.anchor_missing("R-DATE-COMP", "DataType::as_date / as_time (found %d)" % n)
